@@ -224,6 +224,14 @@ def run_case(case, ctx):
         ts = qr.TimeAxis(t.data[shift], ns, stride * dt)
         with ctx.lib("TimeAxis.is_subset_of"):
             sub = ts.is_subset_of(t)
+        # by construction every point of the coarser axis is a point of the propagator's axis; compatibility is exact membership of the
+        # floating-point values (axes whose values differ in the last bits are refused by design), so it is demanded where that holds
+        last_index = shift + (ns - 1) * stride
+        exact = bool(numpy.all(numpy.isin(numpy.asarray(ts.data), numpy.asarray(t.data)))) and (stride * t.step == ts.step)
+        if exact:
+            ctx.require("propagation-matrix==expm", bool(sub), {"what": "compatible coarser axis refused by is_subset_of", "stride": stride, "shift": shift, "points": ns,
+                                                            "index_of_last_point": last_index, "fine_axis_length": Nt})
+            ctx.event("exactly_compatible_subaxes")
         if sub:
             with ctx.lib("PopulationPropagator.get_PropagationMatrix"):
                 U = prop.get_PropagationMatrix(ts)
